@@ -1,6 +1,7 @@
 import IcyVerif.Model.PalStream
 import IcyVerif.Model.BinFormats
 import IcyVerif.Drv.Util
+import IcyVerif.Drv.BinFormats
 /-! Line protocol of the stream-level palette model (`palstream …`, C16).
 
   run <init> <seq,seq,…>     init = `d` (DOS default palette) | hex of RGB triples | `-`; every seq = hex of the bytes of ONE
@@ -11,6 +12,8 @@ import IcyVerif.Drv.Util
                              by position, the last write of a position counts; x = the palette equals the one of the C05 model)
   filepal <fmt> <hex>        palette of `Buffer::from_bytes` (C05 model of the loaders): `ok <palette hex>` | `rej`
   resavepal <fmt> <hex>      load -> save (no SAUCE, no compression) -> load: `ok <palette hex>` | `rej` | `save-err` | `save-panic` | `rej2:rej`
+  savepal <case> <date>      a whole picture (case token of `binformats`, Drv/BinFormats.lean) WRITTEN by the model and read
+                             back: `ok <file length> <fnv of the file> <palette hex>` | `save-err` | `save-panic` | `rej`
   resize <hex> <n> | fill16 <hex> | isdefault <hex>
 -/
 namespace IcyVerif.Drv.PalStream
@@ -74,6 +77,17 @@ def handle : List String → String
           | .panic => "save-panic")
        | _ => "rej")
     | _, _ => "bad-op"
+  | ["savepal", t, date] =>
+    match Drv.BinFormats.parseCase t with
+    | none => "bad-op"
+    | some (f, o, p) =>
+      match BinFormats.save f o (Drv.BinFormats.asciiBytes date) p with
+      | .ok bs =>
+        (match BinFormats.fromBytes f bs with
+         | .ok g => s!"ok {bs.length} {fnv bs} {palHex g.pal}"
+         | _ => "rej")
+      | .err => "save-err"
+      | .panic => "save-panic"
   | ["run", init, seqs] =>
     match init? init, (if seqs == "-" then some [] else (seqs.splitOn ",").mapM parseHex) with
     | some p, some qs =>
